@@ -96,7 +96,7 @@ var properties = map[string]propSpec{
 		Level: "model_checking", Technique: techSX + "; the PEG engine, rule table, actions, utf8 decoding and strconv.Unquote run on symbolic bytes",
 		Bounds:  [2]string{"every byte string of length <= 3 (2^24+ inputs); 59 corpus strings (every rule and error production) concretely; for a seed-selected eighth of the corpus every position with one byte replaced by, or one byte inserted as, an unconstrained byte", "every byte string of length <= 4 (2^32+); windows over the whole corpus"},
 		Outside: "inputs longer than the symbolic bound that differ from every corpus string in more than one byte",
-		StepBudget: 600_000_000,
+		StepBudget: 8_000_000_000, // the single 4-byte input "((((" costs 3.7 M parser steps per parse
 	},
 	"C11": {
 		Level: "model_checking", Technique: techSX + "; the budget is a symbolic uint64 case-split by the parser's own comparison",
